@@ -213,6 +213,29 @@ def check_table(df, target, kind, args, step):
     outs = list(target.get_output_names()) if hasattr(
         target, 'get_output_names') else None
     meas = df[df['Observable'].isin(outs)] if outs else df
+    # covariate rows: every sample ID carries ITS covariate values, labelled
+    # with the covariate's name
+    cv = args.get('covariates')
+    pm_ = getattr(target, '_population_model', None)
+    if kind in ('pp', 'cpp') and cv is not None and pm_ is not None \
+            and pm_.n_covariates() > 0:
+        cnames = list(pm_.get_covariate_names())
+        cvm = np.array(cv, dtype=float)
+        if cvm.ndim == 1:
+            cvm = np.broadcast_to(cvm, (n, len(cvm)))
+        for i in range(1, n + 1):
+            for c, cn in enumerate(cnames):
+                rows = df[(df['ID'] == i) & (df['Observable'] == cn)]
+                got = sorted(float(v) for v in rows['Value'])
+                # (sub-models may use the same default covariate name)
+                want_ = sorted(float(cvm[i - 1][c2])
+                               for c2, n2 in enumerate(cnames) if n2 == cn)
+                if got != want_:
+                    raise Violation(
+                        'table.covariates', 'wrong_row',
+                        '%s: sample ID %d, covariate %r: table holds %s, the '
+                        'covariates handed over were %s' % (
+                            kind, i, cn, got, cvm.tolist()), step)
     cells = {}
     for _, row in meas.iterrows():
         key = (int(row['ID']), float(row['Time']), row['Observable'])
